@@ -147,9 +147,14 @@ func TestC03(t *testing.T) {
 		switch {
 		case mode == 0: // adversarial int column forcing heapsort
 			n := rapid.SampledFrom([]int{100, 200, 500, 1000, 2500, 5000}).Draw(t, "n")
-			killer, _ := hx.KillerSequence(n)
 			rev := rapid.Bool().Draw(t, "reverse")
 			seed := hx.SplitMix(rapid.Uint64().Draw(t, "fill"))
+			var killer []int
+			if rapid.IntRange(0, 3).Draw(t, "closedadversary") == 0 {
+				killer, _ = hx.KillerSequence(n) // the heapsort range is all ties
+			} else {
+				killer, _ = hx.KillerSequenceOpen(n, &seed) // the heapsort range holds distinct shuffled keys
+			}
 			// physical order is a rotation+stride permutation; the frame is brought into the
 			// killer order by sorting on a helper rank first (so the index is not the identity)
 			stride := []int{1, 3, 7, 11}[seed.Intn(4)]
